@@ -53,6 +53,8 @@ JudgeC09Var(G, want, v) ==
     ELSE IF r.degen.d # want.degen THEN "Degeneracy differs from the definition"
     ELSE IF H.n > 0 /\ (~IsPermSeq(r.degen.order, H.n) \/
             \E i \in 1..H.n : Cardinality(Nbrs(H, r.degen.order[i]) \cap { r.degen.order[j] : j \in 1..(i - 1) }) > want.degen) THEN "Degeneracy: the ordering does not certify d"
+    ELSE IF \E i \in 1..Len(r.rmc) : SeqRange(r.rmc[i].clique) \notin MaximalCliques(H) \/ r.rmc[i].again # r.rmc[i].clique THEN "RandomMaximalClique: not a maximal clique, or not determined by the seed"
+    ELSE IF \E i \in 1..Len(r.ipc) : r.ipc[i].ok # (Len(r.ipc[i].col) = H.n /\ (\A u \in 1..H.n : r.ipc[i].col[u] >= 0) /\ IsProper(H, [x \in Verts(H.n) |-> r.ipc[i].col[x + 1]])) THEN "IsProperColouring answers wrongly"
     ELSE ""
 WantC09(G) == [omega |-> CliqueNumber(G), alpha |-> IndependenceNumber(G), chi |-> ChromaticNumber(G), chiE |-> ChromaticIndex(G),
                polyOK |-> G.n <= 6, P |-> IF G.n <= 6 THEN [k \in 1..(G.n + 1) |-> NumColourings(G, k - 1)] ELSE <<>>, degen |-> Degeneracy(G)]
@@ -79,6 +81,8 @@ JudgeC10Var(G, want, v) ==
     ELSE IF r.cycles # want.cycles THEN "NumberOfCycles differs from the number of cycles of each length"
     ELSE IF \E i \in 1..Len(r.indcycles) : r.indcycles[i].counts # [k \in 1..(n + 1) |-> IF k - 1 >= 3 /\ k - 1 <= want.capC[i] THEN want.ic[k] ELSE 0] THEN "NumberOfInducedCycles differs from the definition"
     ELSE IF \E i \in 1..Len(r.indpaths) : r.indpaths[i].counts # [k \in 1..n |-> IF k = 1 \/ k - 1 <= want.capP[i] THEN want.ip[k] ELSE 0] THEN "NumberOfInducedPaths differs from the definition"
+    ELSE IF r.mindeg # (IF n = 0 THEN 0 ELSE MinDeg(G)) \/ r.maxdeg # (IF n = 0 THEN 0 ELSE MaxDeg(G)) THEN "MinDegree / MaxDegree differ from the definition"
+    ELSE IF r.equal[1] # TRUE \/ r.equal[2] # (n <= 1) \/ (Len(r.equal) = 3 /\ r.equal[3] # FALSE) THEN "graph.Equal answers wrongly"
     ELSE ""
 (* maxLength < 0 or beyond the largest possible length means no bound *)
 CapC(n, ml) == IF ml < 0 \/ ml > n THEN n ELSE ml
